@@ -39,6 +39,7 @@ def judge(module, records, constants=None, chunk=20000):
                 total.setdefault('details', {})[off + int(p['i']) - 1] = p
             elif isinstance(p, dict):       # trace validators: [tid, line]
                 bad.append((off + int(p['tid']) - 1, int(p['line']) - 1))
+                total.setdefault('details', {})[(off + int(p['tid']) - 1, int(p['line']) - 1)] = p
             else:
                 bad.append(off + int(p) - 1)
         total['generated'] += r.generated
